@@ -496,12 +496,59 @@ let attrval_suite () =
     done
   with End_of_file -> ())
 
+(* ---------------------------------------------------------------- suite: encbuf *)
+let md5_of_bytes (l : n list) : string =
+  let b = Bytes.create (List.length l) in
+  List.iteri (fun i x -> Bytes.set b i (Char.chr (int_of_n x))) l;
+  Digest.to_hex (Digest.bytes b)
+let encbuf_suite () =
+  let idx = ref 0 in
+  let pending = ref None in
+  (try
+    while true do
+      let line = input_line stdin in
+      let n = String.length line in
+      if n > 2 && line.[0] = 'C' then begin
+        match split_sp line with
+        | [_; m; c; txid; buflen; fill; attrs] ->
+          let l = if attrs = "-" then [] else List.map (fun t ->
+              let r = String.sub t 1 (String.length t - 1) in
+              match t.[0] with
+              | 'p' -> (match String.index_opt r '.' with
+                        | Some i -> EPlain (nn (String.sub r 0 i), bytes_of_hex (String.sub r (i+1) (String.length r - i - 1)))
+                        | None -> failwith "plain")
+              | 'm' -> EMi (bytes_of_hex r) | 's' -> ESha (bytes_of_hex r) | _ -> EFp) (String.split_on_char ',' attrs) in
+          let bl = int_of_string buflen in
+          let buf = List.init bl (fun i -> match fill with "0" -> small_n.(0) | "255" -> small_n.(255) | _ -> small_n.((i * 131 + 7) mod 256)) in
+          let typ = msg_type_of (nn m) (nn c) in
+          pending := Some (buf, typ, bytes_of_hex txid, l, n_of_int bl)
+        | _ -> failwith ("bad record: " ^ line)
+      end else if n >= 2 && line.[0] = 'I' then begin
+        match !pending with
+        | Some (buf, typ, txid, l, bl) ->
+          let i = !idx in incr idx;
+          (match encode_msg buf typ txid l with
+           | Ok (out, size) -> emit (Printf.sprintf "M %d OK %d %s" i (int_of_n size) (md5_of_bytes out))
+           | Err -> emit (Printf.sprintf "M %d ERR" i)
+           | Panic -> emit (Printf.sprintf "M %d PANIC" i));
+          let obs = match split_sp (String.sub line 2 (n - 2)) with
+            | ["OK"; size; _] -> Some (Some (nn size))
+            | ["ERR"] -> Some None
+            | _ -> None in
+          emit (Printf.sprintf "S %d %d C14 -" i (if monitor_C14 bl l obs then 1 else 0));
+          pending := None
+        | None -> failwith "I without C"
+      end
+    done
+  with End_of_file -> ())
+
 let () =
   (match Sys.argv with
    | [| _; "filter" |] -> filter_suite ()
    | [| _; "reasm" |] -> reasm_suite ()
    | [| _; "agent" |] -> agent_suite ()
    | [| _; "wire" |] -> wire_suite ()
+   | [| _; "encbuf" |] -> encbuf_suite ()
    | [| _; "attrval" |] -> attrval_suite ()
    | _ -> prerr_endline "usage: driver <suite> < cases"; exit 2);
   flush_out ()
